@@ -25,7 +25,7 @@ BOUNDS = {
              '(threshold 5), start at voxel 0 (translation symmetry) and every stop voxel, methods dijkstra / bellman-ford / dijkstra-exp / simple / minmax-energy, faces-only and '
              'diagonal; percolation on (2,1,1), (1,2,1), (1,1,2), (1,1,1) along x, y, z, xy with 1-2 peaks; graph structure on (2,2,2), (3,2,1); '
              'wrapped_sites / frac_sites for arbitrary integer voxel coordinates in [-50,50] and dims in [1,9]',
-    'thorough': 'additionally (2,3,1), (3,3,1) faces-only, (2,2,2) faces-only; real networkx Dijkstra executed symbolically on (2,2,1) faces-only',
+    'thorough': 'additionally (3,2,1) diagonal, (2,3,1) and (2,2,2) faces-only; graph structure on (3,3,1), (2,3,2) with blocked voxels and on (2,3,4), (4,3,2) all passable; real networkx Dijkstra executed symbolically on (2,2,1) faces-only',
 }
 OUTSIDE = ['optimal_n_paths, path_over_structure, total_length', 'grids whose number of simple paths exceeds ~2000 (contract enumerates them)',
            'libm exp (EXP uninterpreted, strictly monotone, positive)']
@@ -616,7 +616,7 @@ def jobs(tier, seed):
         perc = [((2, 1, 1), 'x', 1), ((1, 2, 1), 'y', 2), ((1, 1, 2), 'z', 1), ((1, 1, 1), 'xy', 1)]
     else:
         grids = [((2, 2, 1), False, A), ((2, 2, 1), True, A), ((3, 2, 1), False, A), ((3, 2, 1), True, ['dijkstra', 'simple', 'minmax-energy']),
-                 ((1, 2, 3), True, A), ((2, 3, 1), False, A), ((3, 3, 1), False, ['dijkstra', 'simple']), ((2, 2, 2), False, ['dijkstra', 'simple'])]
+                 ((1, 2, 3), True, A), ((2, 3, 1), False, A), ((2, 2, 2), False, ['dijkstra', 'simple'])]
         ggrids = [((2, 2, 2), True), ((3, 2, 1), True), ((2, 2, 1), False), ((3, 3, 1), True), ((2, 3, 2), False)]
         fgrids = [((2, 1, 1), False), ((2, 2, 1), False), ((2, 2, 1), True), ((3, 1, 1), False)]
         perc = [((2, 1, 1), 'x', 1), ((1, 2, 1), 'y', 2), ((1, 1, 2), 'z', 1), ((1, 1, 1), 'xy', 1), ((2, 1, 1), 'x', 2), ((1, 1, 1), 'xyz', 1),
